@@ -42,6 +42,10 @@ func main() {
 		wsStreams(w, r)
 		return
 	}
+	if len(os.Args) > 2 && os.Args[2] == "tick" {
+		tickPart(w, r)
+		return
+	}
 	dur := time.Duration(vc.Scale(6, 150)) * time.Second
 	w.Current(vc.L{"mixed concurrent workload", int64(seed), int64(dur / time.Second)})
 
